@@ -95,7 +95,7 @@ impl CaseKind for HistCase {
     }
     fn run(&self) -> Outcome {
         let key = hist_key(&self.hist);
-        let it = Interp::new(oracles_for(&self.oracle), 1 << 14);
+        let it = Interp::new(oracles_for(&self.oracle), dir_budget_for(&self.hist));
         let (out, it) = it.run(&self.hist);
         let classes_of = |st: &HStats| {
             let mut c: Vec<String> = self.hist.ops().iter().map(|o| format!("op:{}", o.name())).collect();
@@ -152,7 +152,19 @@ impl CaseKind for HistCase {
 /// number of cases of a generator-profile campaign (large shapes are expensive in the reference)
 pub fn profile_total(t: Tier, p: refmodel::elab::Profile) -> u64 {
     match p {
-        refmodel::elab::Profile::LargeDims => t.pick(1600, 40000),
-        refmodel::elab::Profile::WideMagnitudes => t.pick(6000, 120000),
+        refmodel::elab::Profile::LargeDims => t.pick(6000, 100000),
+        refmodel::elab::Profile::WideMagnitudes => t.pick(12000, 200000),
+    }
+}
+
+/// Tangent-direction budget of the reference for a history: histories with large arrays give directions to
+/// leaves only (operation results then hold "unknown" gradients, as when the budget runs out), which keeps the
+/// dense forward-mode reference affordable at dimensions of 64 .. 130.
+pub fn dir_budget_for(hist: &History) -> usize {
+    let biggest = hist.steps.iter().map(|s| if let Step::Leaf { vals, .. } = s { vals.len() } else { 0 }).max().unwrap_or(0);
+    if biggest > 150 {
+        0
+    } else {
+        1 << 14
     }
 }
